@@ -9,6 +9,7 @@ TRANSLATORS = [
     ("ErrFacts.lean", ["errfacts"]),
     ("MemoFacts.lean", ["memofacts"]),
     ("LockFacts.lean", ["lockfacts"]),
+    ("HookFacts.lean", ["hookfacts"]),
 ]
 
 
